@@ -18,7 +18,6 @@ CONSTANTS MaxDim,    \* dimensions range over 1..MaxDim
 VARIABLES acc, start, hist, final
 vars == <<acc, start, hist, final>>
 
-Val(seed, i) == ((seed * 7919 + i * 104729 + i * i * 31) % 7) - 3
 
 UnflatR(rank, v, s) ==
   CASE rank = 1 -> [i \in 1..s[1] |-> v[i]]
